@@ -174,7 +174,7 @@ def accessor_summary(g, prog):
     if key in _accessor_cache:
         return _accessor_cache[key]
     r = None
-    if len(g.blocks) == 1 and all(i.op in ("bitcast", "ret", "getelementptr", "load", "call") for i in g.entry.instrs):
+    if len(g.blocks) == 1 and all(i.op in ("bitcast", "ret", "getelementptr", "load", "call", "ptrtoint", "inttoptr") for i in g.entry.instrs):
         ok = True
         for i in g.entry.instrs:
             if i.op == "call":
